@@ -186,7 +186,9 @@ def run_tables(R, prefix, F, path):
 def freeze(path, only=None):
     """fill `decisions` / `entry` / `args` of every table entry from the current tree (review the diff before committing!)"""
     from facts import Facts
-    F = Facts(os.environ.get("CKB_VERIF_FACTS", "/verif/.cache/facts/current"))
+    import run as _run
+    fdir, _ = _run.ensure_facts()      # the facts of /repo's current tree (never the `current` link: a selftest may have moved it)
+    F = Facts(fdir)
     with open(path) as fh:
         specs = json.load(fh)
     for spec in specs:
